@@ -31,4 +31,39 @@ theorem control_table :
 theorem text_in_bytes_mode_is_utf8 (cps : List Nat) (h : ∀ c ∈ cps, c < 0x110000) :
     utf8.feed (0, 0) (cps.flatMap utf8Encode) = ((0, 0), cps) := utf8_decode_encode cps h
 
+/-- the whole table, for every character code: letters of either case give 1..26 -/
+theorem control_letters (c : Nat) (h : 97 ≤ c ∧ c ≤ 122) : controlByte c = some (c - 96) ∧ controlByte (c - 32) = some (c - 96) := by
+  unfold controlByte
+  constructor
+  · simp only [show ¬ (65 ≤ c ∧ c ≤ 90) by omega, if_false, h, and_self, if_true]
+  · have h1 : 65 ≤ c - 32 ∧ c - 32 ≤ 90 := by omega
+    have h2 : c - 32 + 32 = c := by omega
+    simp only [h1, and_self, if_true, h2, h]
+
+/-- whatever `sendcontrol` puts on the wire is a C0 control byte or DEL, never a printable or a byte above 127 -/
+theorem control_range (c b : Nat) (h : controlByte c = some b) : b < 32 ∨ b = 127 := by
+  unfold controlByte at h
+  grind (splits := 40)
+
+/-- a character outside the table (digits, space, other punctuation, anything above `~`) sends nothing -/
+theorem control_unknown (c : Nat) (h : c < 63 ∨ 127 ≤ c) (h63 : c ≠ 63) : controlByte c = none := by
+  unfold controlByte
+  grind (splits := 40)
+
+/-- end to end for a unicode-mode utf-8 session: whatever mixture of send / sendline / writelines is made, in whatever
+    pieces, a peer that decodes the bytes it received obtains exactly the text that was sent - every character once, in
+    order, no pending partial character -/
+theorem peer_decodes_to_text_sent (cfg : Cfg) (ops : List Op) (h : ∀ op ∈ ops, op.isText = true)
+    (hv : ∀ c ∈ sendText cfg ops, c < 0x110000) :
+    utf8.feed (0, 0) (peerSpec (mapEnc utf8Encode) cfg () ops) = ((0, 0), sendText cfg ops) := by
+  rw [Sess.text_stream_encoded_once (mapEnc utf8Encode) cfg ops h ()]
+  exact utf8_decode_encode _ hv
+
+/-- non-vacuity: a mixed history (text, a read in between, a control character, sendeof) through the utf-8 session -/
+example : (run utf8 (mapEnc utf8Encode) ⟨[10], 4, 3⟩ (Sess.init utf8 (mapEnc utf8Encode))
+            [.send [104, 233], .read [65], .sendline [0x20AC], .sendcontrol 99, .sendeof, .writelines [[97], [98]]]).peer
+          = [104, 0xC3, 0xA9, 0xE2, 0x82, 0xAC, 10, 3, 4, 97, 98] := by decide
+example : ∀ op ∈ ([.send [104, 233], .sendline [0x20AC], .writelines [[97], [98]]] : List Op), op.isText = true := by decide
+example : controlByte 103 = some 7 ∧ controlByte 71 = some 7 ∧ controlByte 48 = none := by decide
+
 end C08
